@@ -601,7 +601,11 @@ func (c *Connection) acceptRequest(ctx context.Context, msg *Request, preempter 
 		}
 	})
 	if err != nil {
-		c.processResult("acceptRequest", req, nil, err)
+		// Respond off the read loop: writing the refusal may block until the peer
+		// reads it, and the peer's read loop may in turn be waiting for ours (for
+		// example when both ends are shutting down and refusing each other's
+		// calls over an unbuffered transport).
+		go c.processResult("acceptRequest", req, nil, err)
 		return
 	}
 
@@ -649,7 +653,7 @@ func (c *Connection) acceptRequest(ctx context.Context, msg *Request, preempter 
 		}
 	})
 	if err != nil {
-		c.processResult("acceptRequest", req, nil, err)
+		go c.processResult("acceptRequest", req, nil, err)
 	}
 }
 
